@@ -578,7 +578,14 @@ bool prop_C07(Tape& t, Report& rep)
     br::init_engine();
     int maxPlies = int(opt_int("plies", g_tier ? 700 : 300));
     gen::Root game;
-    if (t.chance(1, 4))
+    if (t.chance(1, 8))
+    {
+        // the just-pushed pawn gives check and capturing it en passant is the only reply: "is it mate?" hinges on that move
+        ref::Pos s = gen::theme_ep_evasion(t, &rep);
+        game = gen::gen_game(t, &rep, 6, &s);
+        rep.cls("c07:ep_evasion_root");
+    }
+    else if (t.chance(1, 4))
     {
         // sparse endings that cross the insufficient-material boundary
         ref::Pos s = gen::gen_fen(t, &rep, 0);
